@@ -190,8 +190,10 @@ def st_schedule():
             st.lists(st.sampled_from(interesting), max_size=10, unique=True) if interesting else st.just([]),
             st.integers(1, 7).map(lambda step: list(range(step, n, step))),
         ).map(sorted)
-        return st.tuples(st.just(params), cuts, st.lists(st.booleans(), min_size=0, max_size=40), st.booleans()).map(
-            lambda t: {"stream": t[0], "cuts": [c for c in t[1] if 0 < c < n], "parse": t[2], "parse_always": t[3]}
+        # a read that returned nothing: zero-length chunks appended before some of the chunks (a cut position used twice)
+        empties = st.one_of(st.just([]), st.lists(st.integers(0, 12), max_size=4, unique=True))
+        return st.tuples(st.just(params), cuts, st.lists(st.booleans(), min_size=0, max_size=40), st.booleans(), empties).map(
+            lambda t: {"stream": t[0], "cuts": [c for c in t[1] if 0 < c < n], "parse": t[2], "parse_always": t[3], "empty_before": sorted(t[4])}
         )
 
     return st_stream().flatmap(for_stream)
@@ -202,8 +204,13 @@ def run_schedule(case):
     n = len(s.stream)
     bounds = [0] + [c for c in case["cuts"] if 0 < c < n] + [n]
     flags = case["parse"]
+    empty_before = case.get("empty_before", ())
     for i in range(len(bounds) - 1):
+        if i in empty_before:
+            s.queue.append(bytearray())
         s.append(bounds[i + 1] - bounds[i])
+        if (i + 100) in empty_before or (i in empty_before and i % 2):
+            s.queue.append(bytearray())
         do_parse = case["parse_always"] or (flags[i % len(flags)] if flags else True)
         if do_parse and i < len(bounds) - 2:
             devs = s.parse()
@@ -230,6 +237,8 @@ def _schedule_classes(case):
                     out.append("cut one octet before end")
     if any(bounds[i + 1] - bounds[i] < 6 for i in range(len(bounds) - 1)) and n >= 7:
         out.append("chunk shorter than 6")
+    if any(i < len(bounds) - 1 for i in case.get("empty_before", ())):
+        out.append("zero-length chunk")
     if s.has_garbage:
         out.append("garbage")
     if any(p.get("embed") is not None for p in case["stream"]["packets"]):
@@ -332,6 +341,10 @@ def enum_fragmentations(tier, shard, nshards, rng):
             if idx % nshards != shard:
                 continue
             yield {"stream": params, "cuts": list(cuts), "parse": [], "parse_always": True}
+            if len(cuts) <= 2:  # the same fragmentation with a zero-length chunk before each of its chunks in turn (parse after every append / only at the end)
+                for j in range(len(cuts) + 1):
+                    yield {"stream": params, "cuts": list(cuts), "parse": [], "parse_always": True, "empty_before": [j]}
+                    yield {"stream": params, "cuts": list(cuts), "parse": [False], "parse_always": False, "empty_before": [j]}
 
 
 # ---- rule-based machine -------------------------------------------------------------------------------
@@ -348,6 +361,7 @@ class ParserMachine(HistorySpec):
             "append": st.one_of(st.integers(1, 7), st.integers(1, 7), st.integers(1, 60)),
             "parse": st.just(0),
             "append_and_parse": st.integers(1, 12),
+            "append_empty": st.just(0),
             "finish": st.just(0),
         }
 
@@ -360,6 +374,9 @@ class ParserMachine(HistorySpec):
             return []
         if name == "parse":
             return s.parse()
+        if name == "append_empty":
+            s.queue.append(bytearray())
+            return []
         if name == "append_and_parse":
             s.append(arg)
             return s.parse()
@@ -388,6 +405,8 @@ def _machine_classes(trace):
         out.append("several appends per parse")
     if _machine_nt(trace):
         out.append("cut inside packet")
+    if "append_empty" in names:
+        out.append("zero-length chunk")
     return out
 
 
@@ -399,7 +418,7 @@ CLAUSES = [
         check=run_schedule,
         nontrivial=_schedule_nt,
         classify=_schedule_classes,
-        required=["cut inside packet", "cut inside header", "cut right after header", "cut one octet before end", "chunk shorter than 6", "garbage", ">= 2 packets", "several appends per parse", "payload embeds a complete registered packet"],
+        required=["cut inside packet", "cut inside header", "cut right after header", "cut one octet before end", "chunk shorter than 6", "garbage", ">= 2 packets", "several appends per parse", "payload embeds a complete registered packet", "zero-length chunk"],
         n={"quick": 1200, "thorough": 10000},
     ),
     Clause(
